@@ -364,7 +364,7 @@ func RaceSignature(text, modPrefix string) (sig string, report string) {
 	if j := strings.Index(accesses, "\nGoroutine "); j > 0 {
 		accesses = accesses[:j] // the "created at" stacks always name the scheduler; only the two access stacks count
 	}
-	for _, marker := range []string{"verif/sim.(*Sched).recv", "verif/sim.(*Sched).Yield", "verif/sim.(*Sched).Run()", "verif/sim.(*Sched).handle"} {
+	for _, marker := range []string{"gtfs/verifhook.", "verif/sim.(*Sched).recv", "verif/sim.(*Sched).Yield", "verif/sim.(*Sched).Run()", "verif/sim.(*Sched).handle"} {
 		if strings.Contains(accesses, marker) {
 			return "", "harness-artefact: " + rest
 		}
